@@ -1,4 +1,5 @@
 import Bifrost.Model.Wrappers
+import Bifrost.Model.WrappersSplit
 import Bifrost.Lemmas.WrappersHold
 /-!
 C33 — Hold-open keeps a peer's link request referenced exactly while links exist.
@@ -125,6 +126,55 @@ theorem orig_double_acquire :
 example : (run [.add, .remove, .acquire]).outstanding = 0 ∧ quiescent (run [.add, .remove, .acquire]) ∧
     (run [.add, .add, .acquire, .acquire]).outstanding = 1 ∧
     (run [.add, .add, .acquire, .acquire, .remove, .remove, .release]).outstanding = 0 := by
+  decide
+
+/-! ### The duration of `AddReference` (wave 4)
+
+In `Hold.step` the acquire goroutine's check, `AddReference` and store are ONE step. The theorems
+below are about `Hold.Split`, where `AddReference` takes time (`check` … `store`), i.e. about a
+handler that does not hold its mutex across `AddReference`. -/
+open Bifrost.Wrappers.Hold.Split in
+/-- If nothing runs between `check` and `store` (the mutex is held across `AddReference`, as in
+the code), the two halves are exactly the `acquire` step of the model the theorems above are
+about — for every state. -/
+theorem split_atomic_is_acquire (s : State) :
+    (sstep (sstep { base := s, inFlight := 0 } .check) .store) =
+      { base := step s .acquire, inFlight := 0 } := by
+  by_cases hp : s.pendingAcq = 0
+  · simp [sstep, step, enabled, hp]
+  · by_cases hv : s.valCount = 0
+    · simp [sstep, step, enabled, hp, hv]
+    · cases hr : s.rigid <;> simp [sstep, step, enabled, hp, hv, hr, takeRef]
+
+open Bifrost.Wrappers.Hold.Split in
+/-- With the mutex NOT held across `AddReference` the property is false: two links are added, both
+acquire goroutines pass the check before either has stored its reference; the second store
+overwrites the first reference, which nobody releases — one strong reference with zero links, at
+quiescence. (The engine replays this schedule on the real handler with a directive instance whose
+`AddReference` blocks: script add,add,go,go,rm,rm.) -/
+theorem split_acquire_refcount_false :
+    ¬ (∀ ops : List SOp, squiescent (srun ops) →
+        (srun ops).base.outstanding =
+          if (srun ops).base.released then 0 else if (srun ops).base.valCount > 0 then 1 else 0) := by
+  intro h
+  have := h [.op .add, .op .add, .check, .check, .store, .store, .op .remove, .op .remove, .op .release]
+    (by decide)
+  revert this
+  decide
+
+open Bifrost.Wrappers.Hold.Split in
+/-- The same schedule, spelled out: two references while both links exist, one left when none does. -/
+theorem split_acquire_double :
+    (srun [.op .add, .op .add, .check, .check, .store, .store]).base.outstanding = 2 ∧
+    (srun [.op .add, .op .add, .check, .check, .store, .store, .op .remove, .op .remove, .op .release]).base.outstanding = 1 ∧
+    (srun [.op .add, .op .add, .check, .check, .store, .store, .op .remove, .op .remove, .op .release]).base.valCount = 0 ∧
+    squiescent (srun [.op .add, .op .add, .check, .check, .store, .store, .op .remove, .op .remove, .op .release]) := by
+  decide
+
+open Bifrost.Wrappers.Hold.Split in
+/-- Non-vacuity: the same links with each acquisition finishing before the next check. -/
+example : (srun [.op .add, .op .add, .check, .store, .check, .store, .op .remove, .op .remove, .op .release]).base.outstanding = 0 ∧
+    squiescent (srun [.op .add, .op .add, .check, .store, .check, .store, .op .remove, .op .remove, .op .release]) := by
   decide
 
 end Bifrost.Props.C33
